@@ -78,6 +78,9 @@ func (t *ServerTransport) Handshake(handshakePacket *parser.Packet, w http.Respo
 	}
 	if t.readLimit != 0 {
 		t.conn.SetReadLimit(t.readLimit)
+	} else {
+		// DisableMaxBufferSize: lift the library's 32 KiB default as well.
+		t.conn.SetReadLimit(-1)
 	}
 	// sid is only for webtransport
 	return "", t.writeHandshakePacket(handshakePacket)
